@@ -1,6 +1,7 @@
 import ChipFiring.Theory.EwdFull
 import ChipFiring.Theory.Potential
 import ChipFiring.Theory.GoodOf
+import ChipFiring.Theory.Termination
 import ChipFiring.Model.Algos
 /-
   C01 — Winnability verdicts are exact.
@@ -96,6 +97,30 @@ theorem verdict_exact (G : Graph n) (hG : G.WF) (hc : G.Connected) (hint : Fin n
   cases opt with
   | false => exact ewd_plain_verdict_exact G hG.symm hint fuel Dv r (cover_of_connected G hG hc hint) h
   | true => exact ewd_optimized_verdict_exact G hG hc hint fuel Dv r htot (cover_of_connected G hG hc hint) h
+
+/-- The call terminates: on a connected well-formed multigraph with at least one vertex, for every
+    divisor and both modes there is a fuel from which on the model of `EWD` returns a result
+    (debt concentration is bounded by least action against a clearing script, the firing rounds by
+    the potential Σ b·D of a positive supersolution b of the reduced Laplacian). -/
+theorem ewd_terminates (G : Graph n) (hG : G.WF) (hc : G.Connected) (hn : 0 < n)
+    (hint : Fin n → List (Fin n)) (Dv : Divisor n) (opt : Bool) :
+    ∃ F, ∀ fuel, F ≤ fuel → ∃ r, ewd G hint fuel Dv opt = some (.ok r) := by
+  obtain ⟨q, hq⟩ := Option.isSome_iff_exists.mp (sink_isSome Dv.deg hn)
+  have hqn : q ∉ debtOrder G hint q := by
+    unfold debtOrder; simp
+  obtain ⟨F, hF⟩ := reduceLoop_terminates G hG hc q (debtOrder G hint q) hqn
+    (cover_of_connected G hG hc hint q) Dv.deg
+  refine ⟨F, fun fuel hf => ?_⟩
+  unfold ewd
+  by_cases h1 : (opt && decide (Dv.total < 0)) = true
+  · simp only [h1, if_true]; exact ⟨_, rfl⟩
+  · simp only [h1, Bool.false_eq_true, if_false]
+    by_cases h2 : (opt && decide (Dv.total ≥ G.genus)) = true
+    · simp only [h2, if_true]; exact ⟨_, rfl⟩
+    · simp only [h2, Bool.false_eq_true, if_false, hq]
+      obtain ⟨r, hr⟩ := hF fuel hf (Dv.degV :: if opt = true then [Dv.degV, Dv.degV] else []) 0
+      simp only [hr]
+      exact ⟨_, rfl⟩
 
 /-- the recorded trace is not an input of the result: the verdict, divisor and orientation are
     computed by the same function whether or not recording is on (recording is modelled as the
